@@ -379,6 +379,30 @@ func c16Sizes(r *kit.Run, tier string) int {
 		}
 	}
 	rec(nil)
+	// one Send call with several messages is all-or-nothing: callers take a failed Send for
+	// "nothing was posted" and send everything again
+	{
+		dir := filepath.Join(world.Scratch(), fmt.Sprintf("c16s-%d", atomic.AddInt64(&c16seq, 1)))
+		_ = os.MkdirAll(dir, 0o755)
+		h, err := file_storage.NewFileStorage(filepath.Join(dir, "f"), filepath.Join(dir, "l"))
+		if err != nil {
+			r.Infra("%v", err)
+		}
+		small := storage.Message{Data: []byte("small"), Event: "e", SenderAddr: "w"}
+		big := storage.Message{Data: make([]byte, sizes[len(sizes)-1]), Event: "e", SenderAddr: "w"}
+		if tier == "thorough" {
+			big.Data = make([]byte, payloadFor(1024*1024+64))
+		}
+		n++
+		if serr := h.Send(small, big, small); serr != nil {
+			ms, _ := h.GetMessages(0)
+			if len(ms) != 0 {
+				r.Violation("C16/failed-send-left-messages", fmt.Sprintf("Send(small, over-limit, small) failed (%v) but left %d message(s) on the board", serr, len(ms)), map[string]interface{}{"sizes": []int{5, len(big.Data), 5}})
+			}
+		}
+		_ = h.Close()
+		os.RemoveAll(dir)
+	}
 	r.Sample(map[string]interface{}{"payload_size_alphabet": sizes, "max_sequence_length": maxLen})
 	return n
 }
